@@ -27,6 +27,13 @@ class PlainIO(ioseq.IOHooks):
         return Hooks.decide(self, ex, cond)
 
 
+class LocalHelpers(Hooks):
+    """inline file-local (static) helper functions: they are part of the function that calls them"""
+
+    def want_inline(self, ex, callee, node):
+        return bool(callee.get("static")) and not callee.get("record") and ex.depth < 6
+
+
 def direct_stream_calls(fn, method):
     return [n for n in walk(fn.d.get("body")) if n.get("k") == "mcall" and n.get("method") == method
             and n.get("record") in ioseq.STREAM_RECORDS]
@@ -53,10 +60,23 @@ def run(chk):
         check_section_end(chk, v, parser)
         nr = v.noreturn
         # ---------------- R1 tags
-        readers = [f for f in v.defined() if not f.get("record") and direct_stream_calls(f, "fread")]
+        # readers: the functions with external linkage that read binary data, directly or through file-local (static)
+        # helpers; a helper is part of each of its callers and is analysed inlined into them
+        local = lambda g: bool(g.get("static")) and not g.get("record")
+        reading = {f.usr for f in v.defined() if not f.get("record") and direct_stream_calls(f, "fread")}
+        grew = True
+        while grew:
+            grew = False
+            for f in v.defined():
+                if f.usr in reading or f.get("record"):
+                    continue
+                if any(c.get("cusr") in reading and c.get("cusr") in v.defs and local(v.defs[c["cusr"]]) for c in calls_in(f.d.get("body"))):
+                    reading.add(f.usr)
+                    grew = True
+        readers = [v.defs[u] for u in sorted(reading) if not local(v.defs[u])]
         chk.set_count("R1.binary_readers", len(readers))
         for f in readers:
-            eff, st, ex = run_function(v, f, hooks=Hooks())
+            eff, st, ex = run_function(v, f, hooks=LocalHelpers())
             seq = ordered(eff)
             freads = [i for i, x in enumerate(seq) if x["e"] == "call" and x["name"].endswith("::fread")
                       and x["name"].split("::")[0] in ioseq.STREAM_RECORDS]
